@@ -646,9 +646,11 @@ class EChaos(Engine):
             if len(self.gens) < 6:
                 self.gens.append(r)
                 self.toggled_since.append(False)
-            else:
-                for _, _v in zip(range(20), r):
-                    pass
+                return None
+            # no room for another live task: the generator is consumed on the spot - its steps are calls of the library like any other
+            st, e = call(lambda: [None for _ in zip(range(20), r)])
+            return e if st == 'exc' else None
+        return None
 
     # ---- events --------------------------------------------------------------------------------------------------
     def apply(self, ev):
@@ -749,7 +751,9 @@ class EChaos(Engine):
                     # read-only / unknown attribute: AttributeError is what Python documents for it
                     st, r = 'ok', None
             if st == 'ok':
-                self._keep(r)
+                e_ = self._keep(r)
+                if e_ is not None:
+                    st, r, label = 'exc', e_, label + '|drained'
             incs = self._monitor(before, label, st, r, used, ev)
             self._trim()
             self.state(cname, 'lsb0' if self.opts[0] else 'msb0', self.opts[1], min(len(kernel.safe_bin(x)) // 16, 5) if kernel.is_bits(x) else -1, len(self.gens) > 0)
@@ -759,6 +763,7 @@ class EChaos(Engine):
             used = []
             before = self._valid()
             cls = ev.get('cls') if ev.get('cls') in CLASSES + ('Array',) else 'Bits'
+            pos_before = [(kernel.get_pos(o) if kernel.is_stream(o) else None) for o in self.objs]
 
             def go():
                 if cls == 'Array':
@@ -789,6 +794,10 @@ class EChaos(Engine):
             st, r = call(go)
             label = f'ctor|{cls}|{ev.get("how") if cls != "Array" else "-"}' + (f':{_propfam(str(ev.get("kw")))}' if ev.get('how') in ('kw', 'file') else '')
             incs = self._monitor(before, label, st, r, used, ev)
+            # a constructor reads its operands: the stream it was given (or any other live stream) stands where it stood
+            pos_after = [(kernel.get_pos(o) if kernel.is_stream(o) else None) for o in self.objs]
+            if pos_after != pos_before and len(pos_after) == len(pos_before):
+                incs.append(self.inc(f'{label}|{"lsb0" if self.opts[0] else "msb0"}|invalid-post-state:operand-stream-moved', event=ev, before=pos_before, after=pos_after))
             if st == 'ok' and (kernel.is_bits(r) or kernel.is_array(r)):
                 st2, b = call(lambda: (r.bin if kernel.is_bits(r) else r.data.bin))
                 ln = len(r) if kernel.is_bits(r) else len(r.data)
